@@ -46,6 +46,8 @@ var (
 	c18Paths    = []string{"/", "/a", "/a/", "/a/b/c", "/ab", "/b", "/c", "", "/données/x", "/a b/c", "/50%/x", "/a/b"}
 	// how the paths are spelled on the request line where that is not simply the escaped form: "/a/b" arrives as "/a%2Fb"
 	c18WirePaths = []string{"", "", "", "", "", "", "", "", "", "", "", "/a%2Fb"}
+	// paths sent through the client handler only: they look like platform, API or agent endpoints but are ordinary end-user paths
+	c18HTTPPaths = []string{"/_ah/warmup", "/_ah/start", "/_ah", "/_ah/health", "/_ahx", "/apix/backends", "/agents/pending", "/cron/deleted"}
 	// prefixes whose characters are escaped on the wire; the request path of the statement is the decoded one
 	c18PrefixesEsc = append(append([]string{}, c18Prefixes...), "/données/", "/a b/", "/50%/")
 )
@@ -399,7 +401,7 @@ func c18Generate(r *core.Run) []c18Config {
 	for i := range cfgs {
 		if bs := cfgs[i].Backends; len(bs) == 1 && bs[0].EndUser == "allUsers" && bs[0].Seen == "fresh" && bs[0].Active == "" && bs[0].Repolled == "" && !bs[0].Rereg {
 			switch bs[0].Prefixes[0] {
-			case "/données/", "/a b/", "/50%/", "/a/", "/a/b":
+			case "/données/", "/a b/", "/50%/", "/a/", "/a/b", "/", "":
 				cfgs[i].HTTP = true
 			}
 		}
@@ -438,11 +440,11 @@ func c18Generate(r *core.Run) []c18Config {
 
 // C18 — routing to the most specific live backend.
 func C18(r *core.Run) {
-	r.SetRule("bounded-exhaustive comparison of LookupBackend (real caching+persistent store over a fake datastore/memcache) with an independent longest-prefix specification: 1-4 backends, prefix lists (1-3, duplicates) over {/, /a, /a/, /a/b, /ab, /b, \"\", /données/, \"/a b/\", /50%/}, endUser in {u1 (a mixed-case address, upper-case domain), u2, allUsers}, a third of the configurations (and every one sent through the client handler) registered through POST /api/backends instead of the store interface, last poll in {fresh,4m,6m,1h,never} x last posted response in {none,fresh,4m,6m} (dated independently; posted through the real store), backends with an earlier life under the same ID (registered, polled, answered, deleted, registered again = never polled), backends registered again for another agent account while only the former agent keeps polling (through /agent/pending; must be turned away and must not keep the backend live), one configuration with 520 private backends of one user and 510 shared ones (most specific matches late in key order), backends registered, polled and registered again within seconds (directly or after a delete) before their present poll, users {u1,u2,u3} x 12 paths (including non-ASCII, space, percent and one that arrives with an encoded slash, %2F; the request path is the decoded one), every/many insertion orders, each lookup repeated; sample through the client HTTP handler, including three-step histories (a cacheable GET answered by the one admissible backend; that backend deleted / its last poll aged past the window / registered for another end user; the same GET again); class = (#backends, candidate source user/shared/none, #candidates, longest match length, tie size, liveness of the longest class, more specific shared backend present)")
+	r.SetRule("bounded-exhaustive comparison of LookupBackend (real caching+persistent store over a fake datastore/memcache) with an independent longest-prefix specification: 1-4 backends, prefix lists (1-3, duplicates) over {/, /a, /a/, /a/b, /ab, /b, \"\", /données/, \"/a b/\", /50%/}, endUser in {u1 (a mixed-case address, upper-case domain), u2, allUsers}, a third of the configurations (and every one sent through the client handler) registered through POST /api/backends instead of the store interface, last poll in {fresh,4m,6m,1h,never} x last posted response in {none,fresh,4m,6m} (dated independently; posted through the real store), backends with an earlier life under the same ID (registered, polled, answered, deleted, registered again = never polled), backends registered again for another agent account while only the former agent keeps polling (through /agent/pending; must be turned away and must not keep the backend live), one configuration with 520 private backends of one user and 510 shared ones (most specific matches late in key order), backends registered, polled and registered again within seconds (directly or after a delete) before their present poll, users {u1,u2,u3} x 12 paths (including non-ASCII, space, percent and one that arrives with an encoded slash, %2F; the request path is the decoded one), every/many insertion orders, each lookup repeated; sample through the client HTTP handler (also paths that look like platform / API / agent endpoints - /_ah/warmup, /_ah, /_ahx, /apix/..., /agents/..., /cron/... - and every request repeated with the handler's 1st or 2nd datastore query failing: an error answer is admissible then, a backend the specification does not select is not), including three-step histories (a cacheable GET answered by the one admissible backend; that backend deleted / its last poll aged past the window / registered for another end user; the same GET again); class = (#backends, candidate source user/shared/none, #candidates, longest match length, tie size, liveness of the longest class, more specific shared backend present)")
 	r.Assume("ties and a non-live member of the longest-prefix class admit 404 or any live member; liveness margins are >= 60 s from the 5-minute boundary; 'never seen' is the state right after registration; a backend is live iff its agent listed pending requests within the window - a posted response never counts; a request answered without being queued for any backend (GET cache replay) is admissible only where some backend is admissible for that user and path; last-seen ages are produced by ageing the time-valued properties written when the backend's pending list is read")
 	bin := r.MustBuild(e3Build(r))
 	cfgs := c18Generate(r)
-	spec := map[string]interface{}{"mode": "c18", "workers": 16, "users": c18Users, "paths": c18Paths, "wire_paths": c18WirePaths, "reps": 2, "configs": cfgs}
+	spec := map[string]interface{}{"mode": "c18", "workers": 16, "users": c18Users, "paths": c18Paths, "wire_paths": c18WirePaths, "http_paths": c18HTTPPaths, "reps": 2, "configs": cfgs}
 	res := e3Run(r, bin, "c18", spec, time.Duration(r.Pick(240, 1500))*time.Second)
 	seenCfg := 0
 	orders, lookups, httpCases, routed, histCases, hist404 := 0, 0, 0, 0, 0, 0
@@ -467,6 +469,8 @@ func C18(r *core.Run) {
 				ReplayedOld bool     `json:"replayed_first_answer"`
 			} `json:"hist"`
 			HTTP []struct {
+				Fault    string `json:"fault"`
+				Fired    int    `json:"fault_fired"`
 				U, P     int
 				Status   int
 				ListedIn []string `json:"listed_in"`
@@ -561,14 +565,26 @@ func C18(r *core.Run) {
 				r.Broken("C18 HTTP sample: " + h.SetupErr)
 				continue
 			}
-			u, p := c18Users[h.U], c18Paths[h.P]
+			allPaths := append(append([]string{}, c18Paths...), c18HTTPPaths...)
+			u, p := c18Users[h.U], allPaths[h.P]
 			allowed, allow404, class := c18Expect(cfg, u, p)
+			if h.P >= len(c18Paths) {
+				class += "|platform-like-path"
+			}
+			faulted := h.Fault != "" && h.Fired > 0 // one datastore query of the handler failed: an error answer is admissible, a wrong backend is not
+			if h.Fault != "" {
+				class += "|fails:" + h.Fault
+			}
 			r.Case("http|" + class)
 			httpCases++
-			cs := map[string]interface{}{"config": cfg, "user": u, "path": p, "via": "client handler"}
+			cs := map[string]interface{}{"config": cfg, "user": u, "path": p, "via": "client handler", "failing_call": h.Fault}
 			switch {
 			case h.Hung:
 				r.Violate("C18:http-handler-hangs", "client handler did not return", cs, h)
+			case len(h.ListedIn) == 0 && faulted:
+				if h.Status/100 == 2 {
+					r.Violate("C18:http-unrouted-not-404", fmt.Sprintf("user %s path %q (with %s failing): request was queued for no backend but the client got %d", u, p, h.Fault, h.Status), cs, h)
+				}
 			case len(h.ListedIn) == 0:
 				if h.Status != 404 {
 					r.Violate("C18:http-unrouted-not-404", fmt.Sprintf("user %s path %q: request was queued for no backend but the client got %d, not 404", u, p, h.Status), cs, h)
